@@ -379,3 +379,54 @@ Proof.
   constructor; [|apply IH]. intros ->. rewrite E in P. cbn [snd] in P.
   rewrite <- parquet_chunks_eq. exact P.
 Qed.
+
+(* ---------- the parameter that configures the chunk size ---------- *)
+Lemma slices_single n cs : 1 <= n -> n <= cs -> slices n cs = [(0, n)].
+Proof.
+  intros Hn Hc. unfold slices. destruct n as [|m]; [lia|]. cbn [slices_from].
+  destruct (Nat.leb_spec (S m) 0); [lia|]. rewrite Nat.add_0_l, (Nat.min_r cs (S m)) by lia.
+  f_equal. destruct m as [|k]; [reflexivity|]. cbn [slices_from].
+  destruct (Nat.leb_spec (S (S k)) cs); [reflexivity|lia].
+Qed.
+
+(* an input that is no longer than the chunk is requested in the same single slice whatever the chunk size *)
+Theorem slices_capped n cs cs' : n <= cs -> n <= cs' -> slices n cs = slices n cs'.
+Proof.
+  intros H1 H2. destruct n as [|m]; [reflexivity|]. rewrite !slices_single by lia. reflexivity.
+Qed.
+
+Lemma configured_cs_pos dflt p : 1 <= dflt -> 1 <= configured_cs dflt p.
+Proof. intros H. destruct p as [[|v]|]; cbn [configured_cs]; lia. Qed.
+
+(* the requests of a pass are a function of the VALUE handed over (the checkers' capped_cs stands for the default) *)
+Theorem param_requests_by_value dflt n p : n <= dflt -> param_slices dflt n p = slices n (capped_cs n p).
+Proof.
+  intros H. unfold param_slices. destruct p as [[|v]|]; cbn [configured_cs capped_cs]; try reflexivity;
+    apply slices_capped; lia.
+Qed.
+
+Theorem param_requests_spec dflt n p : 1 <= dflt ->
+  concat (map range (param_slices dflt n p)) = seq 0 n /\
+  Forall (fun se => 1 <= slice_len se <= configured_cs dflt p /\ snd se <= n) (param_slices dflt n p).
+Proof.
+  intros H. pose proof (configured_cs_pos dflt p H) as Hc. unfold param_slices.
+  split; [apply slices_cover|apply slices_bound]; exact Hc.
+Qed.
+
+(* nothing handed over (or a falsy value): one request, allowed because the input is not larger than the chunk *)
+Theorem param_default_single dflt n : 1 <= n <= dflt ->
+  param_slices dflt n None = [(0, n)] /\ param_slices dflt n (Some 0) = [(0, n)].
+Proof. intros H. unfold param_slices. cbn [configured_cs]. split; apply slices_single; lia. Qed.
+
+(* a test on the type that keeps the parameter changes nothing; one that discards it requests more than the configured
+   chunk as soon as the input is longer than it - and is invisible on inputs that fit into one chunk *)
+Theorem typed_keep_same dflt p : configured_cs_typed true dflt p = configured_cs dflt p.
+Proof. reflexivity. Qed.
+
+Theorem typed_discard_refuted dflt n v : 1 <= v -> v < n -> v < dflt ->
+  exists se, In se (slices n (configured_cs_typed false dflt (Some v))) /\ v < slice_len se.
+Proof. intros Hv Hn Hd. cbn [configured_cs_typed]. apply larger_chunk_refuted; assumption. Qed.
+
+Theorem typed_discard_invisible dflt n v : n <= v -> n <= dflt ->
+  slices n (configured_cs_typed false dflt (Some v)) = slices n v.
+Proof. intros Hv Hd. cbn [configured_cs_typed]. apply slices_capped; assumption. Qed.
